@@ -110,11 +110,28 @@ def enclosing_lemma(path, line):
     return None
 
 
+def props_files(pid):
+    """Props/Cxx.v plus the per-half files Props/Cxx_*.v (e.g. C06_text.v, C06_bin.v)"""
+    d = os.path.join(COQ, "theories", "Props")
+    fs = []
+    if os.path.exists(os.path.join(d, pid + ".v")):
+        fs.append(pid)
+    fs += sorted(os.path.basename(p)[:-2] for p in glob.glob(os.path.join(d, pid + "_*.v")))
+    return fs
+
+
 def props_theorems(pid):
-    p = os.path.join(COQ, "theories", "Props", pid + ".v")
-    if not os.path.exists(p):
-        return []
-    return re.findall(r"^\s*Theorem\s+([A-Za-z0-9_']+)", open(p).read(), re.M)
+    """pinned theorems of a property, as Module.name"""
+    out = []
+    for m in props_files(pid):
+        txt = open(os.path.join(COQ, "theories", "Props", m + ".v")).read()
+        txt = re.sub(r"\(\*.*?\*\)", "", txt, flags=re.S)
+        out += [m + "." + t for t in re.findall(r"^\s*Theorem\s+([A-Za-z0-9_']+)", txt, re.M)]
+    return out
+
+
+def props_targets(pid):
+    return ["theories/Props/%s.vo" % m for m in props_files(pid)]
 
 
 def forbidden_scan():
@@ -134,7 +151,7 @@ def print_assumptions(pid, thms):
     os.makedirs(d, exist_ok=True)
     f = os.path.join(d, "Ax%s.v" % pid)
     with open(f, "w") as fh:
-        fh.write("From JV.Props Require Import %s.\n" % pid)
+        fh.write("From JV.Props Require %s.\n" % " ".join(props_files(pid)))
         for t in thms:
             fh.write('Goal True. idtac "@@THM %s". exact I. Qed.\nPrint Assumptions %s.\n' % (t, t))
     rc, out, _ = sh(["coqc", "-Q", os.path.join(COQ, "theories"), "JV", "-noglob", f], cwd=d, timeout=600)
